@@ -150,6 +150,43 @@ static void wf_case(uint64_t idx, void *ctx)
     free(hx); free(hy);
 }
 
+/* ---- numeric components of any spelling: zero-padded, and beyond every machine word; reference = decimal comparison of the digit strings */
+static const char *SPELL[] = { "0", "00", "1", "01", "2", "002", "9", "10", "010", "99", "100", "0100",
+    "999999999999999999", "1000000000000000000", "0000000000000000002", "00000000000000000000002", "0000000000000000000000000000000010",
+    "9223372036854775807", "9223372036854775808", "18446744073709551615", "18446744073709551616", "018446744073709551616",
+    "99999999999999999999", "100000000000000000000", "100000000000000000001", "000000000000000000000", "4294967295", "4294967296", "04294967297" };
+#define NSPELL ((int) (sizeof SPELL / sizeof *SPELL))
+static int deccmp(const char *a, const char *b)
+{
+    while (*a == '0') a++; while (*b == '0') b++;
+    size_t la = strlen(a), lb = strlen(b);
+    if (la != lb) return la < lb ? -1 : 1;
+    int c = strcmp(a, b); return c < 0 ? -1 : (c > 0 ? 1 : 0);
+}
+static const char *FORM[] = { "%s", "1.%s", "%s.5", "3.%s.7", "%src1" };
+#define NFORM 5
+static void sp_text(uint64_t idx, char *tx, char *ty, size_t n, int *ix, int *iy)
+{
+    int f = (int) (idx % NFORM); idx /= NFORM; *ix = (int) (idx % NSPELL); *iy = (int) (idx / NSPELL);
+    snprintf(tx, n, FORM[f], SPELL[*ix]); snprintf(ty, n, FORM[f], SPELL[*iy]);
+}
+static void sp_desc(uint64_t idx, void *ctx, char *b, size_t n) { char tx[80], ty[80]; int i, j; (void) ctx; sp_text(idx, tx, ty, sizeof tx, &i, &j); snprintf(b, n, "number spellings: spiftool_version_compare(\"%s\", \"%s\")", tx, ty); }
+static void sp_case(uint64_t idx, void *ctx)
+{
+    mc_strings_prelude();
+    char tx[80], ty[80]; int i, j; (void) ctx; sp_text(idx, tx, ty, sizeof tx, &i, &j);
+    char *hx = mc_heapstr(tx), *hy = mc_heapstr(ty);
+    const char *shape = (strlen(SPELL[i]) >= 19 || strlen(SPELL[j]) >= 19) ? "a component of 19 or more digits" : ((SPELL[i][0] == '0' && SPELL[i][1]) || (SPELL[j][0] == '0' && SPELL[j][1]) ? "zero-padded component" : "plain components");
+    mc_set_shape(shape);
+    int g = call(hx, hy, 0xA5), g2 = call(hx, hy, 0x5A), r = call(hy, hx, 0xA5), expect = deccmp(SPELL[i], SPELL[j]);
+    if (g != g2) FAIL("spiftool_version_compare", "nondeterministic", shape, "result %d with the stack filled with 0xA5, %d with 0x5A", g, g2);
+    if (g != expect) FAIL("spiftool_version_compare", "model:ordering-law", shape, "cmp(\"%s\",\"%s\")=%d, numeric components compare numerically: %d", tx, ty, g, expect);
+    if (g != -r) FAIL("spiftool_version_compare", "model:antisymmetry", shape, "cmp(\"%s\",\"%s\")=%d but reversed %d", tx, ty, g, r);
+    mc_nontrivial();
+    mc_outcome((uint64_t) (g + 2) + mc_hash_str(shape));
+    free(hx); free(hy);
+}
+
 int main(int argc, char **argv)
 {
     mc_init("C17", argc, argv);
@@ -159,14 +196,15 @@ int main(int argc, char **argv)
     build(core);
     NSTR = nstrings(NFRAG);
     mc_info("alphabet", "%d fragments (%s), <= %d fragments per side: %llu strings, all ordered pairs; every call made twice under stack fill 0xA5/0x5A; "
-            "well-formed generator num(.num){0..2}[word[num]]: all pairs for the statement's ordering laws", NFR, core ? "core alphabet" : "incl. runs of 127/128/129/5000 letters, digits, dots",
-            NFRAG, (unsigned long long) NSTR);
+            "well-formed generator num(.num){0..2}[word[num]]: all pairs for the statement's ordering laws; %d spellings of numbers (zero-padded, 18..34 digits, around 2^32/2^63/2^64) in 5 version forms, all ordered pairs against decimal comparison", NFR, core ? "core alphabet" : "incl. runs of 127/128/129/5000 letters, digits, dots",
+            NFRAG, (unsigned long long) NSTR, NSPELL);
     mc_e2_level(core ? "pairs_core" : "pairs", NFRAG, NSTR * NSTR, pair_case, pair_desc, NULL);
     if (!core) {
         g_nn = (int) mc_arg_int("nn", mc_thorough() ? 5 : 3);
         if (g_nn > NNUM) g_nn = NNUM;
         WF_COUNT = 3ULL * (uint64_t) (g_nn * g_nn * g_nn) * NWORD * 3;
         mc_e2_level("wellformed", g_nn, WF_COUNT * WF_COUNT, wf_case, wf_desc, NULL);
+        mc_e2_level("number_spellings", NSPELL, (uint64_t) NFORM * NSPELL * NSPELL, sp_case, sp_desc, NULL);
     }
     return mc_finish();
 }
